@@ -74,7 +74,10 @@ impl Request {
             method,
             headers: Vec::new(),
             remote_addr,
+            #[cfg(not(redirectionio_verif))]
             created_at: Some(Utc::now()),
+            #[cfg(redirectionio_verif)]
+            created_at: Some(crate::verif_hooks::now()),
             sampling_override,
         }
     }
@@ -97,7 +100,10 @@ impl Request {
             method,
             remote_addr,
             headers: Vec::new(),
+            #[cfg(not(redirectionio_verif))]
             created_at: Some(Utc::now()),
+            #[cfg(redirectionio_verif)]
+            created_at: Some(crate::verif_hooks::now()),
             sampling_override,
         }
     }
